@@ -137,6 +137,18 @@ def scenario(sh: Shard, seed, idx, action, t_crash, shape, regime, suspend):
                     except asyncio.TimeoutError:
                         out["harness_problem"] = "connection endpoint never created"
                     loop.creation_hook = None
+                elif shape == "at-step":
+                    # the action lands right after the k-th callback scheduled on the event loop since
+                    # the manager was entered (every task step is one such callback): crash points
+                    # between two steps of different tasks at the same virtual instant
+                    fut = loop.create_future()
+                    loop.step_target = loop.steps_scheduled + int(t_crash)
+                    loop.step_hook = lambda: (not fut.done()) and fut.set_result(True)
+                    try:
+                        await asyncio.wait_for(fut, 120)
+                        out["landed_at_step"] = True
+                    except asyncio.TimeoutError:
+                        out["harness_problem"] = "fewer callbacks were scheduled than the requested step index"
                 elif shape == "in-consumer-callback":
                     # the action lands while a consumer task of the connection is suspended inside the
                     # client's event handler (RF-error events, handler sleeping 0.3-3 s)
@@ -276,6 +288,8 @@ def scenario(sh: Shard, seed, idx, action, t_crash, shape, regime, suspend):
         sh.count("socket_errors_injected", out.get("errors_injected", 0))
         if shape == "at-endpoint-creation":
             sh.count("actions_at_endpoint_creation")
+        if out.get("landed_at_step"):
+            sh.count("actions_at_a_scheduler_step")
         if out.get("consumer_suspended_at_action"):
             sh.count("actions_while_a_consumer_was_inside_a_client_callback")
         sh.see("states_at_crash", f"{action}:{out.get('state_at_crash')}")
@@ -405,6 +419,11 @@ def main(tier, seed):
             for t in (0.0, 0.05, 0.2):
                 cases.append({"idx": idx, "action": action, "t": t, "shape": "in-consumer-callback", "regime": regime, "suspend": "seconds"})
                 idx += 1
+            # every scheduler step from entering the context to the steady state (about 260 steps to
+            # CONNECTED, then the first polls of the steady state)
+            for k in range(0, 330, 3 if tier == "quick" else 1):
+                cases.append({"idx": idx, "action": action, "t": float(k), "shape": "at-step", "regime": regime, "suspend": "none" if k % 2 else "tick"})
+                idx += 1
     n = NCPU
     jobs = [{"seed": seed, "cases": cases[i::n], "ncycles": (12 if tier == "quick" else 50) if i < 2 else 0} for i in range(n)]
     run.absorb(run_shards("checks.c10", "shard", jobs, timeout=3400))
@@ -418,6 +437,7 @@ def main(tier, seed):
     run.need(run.counters.get("reconnect_cycles", 0) >= 10, "reconnect cycles not run")
     run.need(run.counters.get("socket_errors_injected", 0) >= 4, "socket errors before reset/exit not exercised")
     run.need(run.counters.get("actions_at_endpoint_creation", 0) >= 4, "no reset/exit landed exactly at an endpoint creation")
+    run.need(run.counters.get("actions_at_a_scheduler_step", 0) >= 200, "too few actions landed at an exact scheduler step")
     run.need(run.counters.get("actions_while_a_consumer_was_inside_a_client_callback", 0) >= 4, "no reset/exit landed while a consumer task was suspended inside a client callback")
     run.extra["crash_points"] = len(cases)
     return run.finish(
